@@ -13,14 +13,14 @@ ENF = {"EQUAL": "mzd_equal", "CMP": "mzd_cmp", "IS_ZERO": "mzd_is_zero", "FIRST_
 def obs_groups(tier, props=("C17", "C09", "C11")):
     gs = []
 
-    def add(mode, d, tag, extra=None, unwind=None, timeout=300):
+    def add(mode, d, tag, extra=None, unwind=None, timeout=300, refine=False):
         dd = dict(d)
         dd["H_" + mode] = None
         if extra:
             dd.update(extra)
         gs.append(Group(gid="K.%s.%s" % (FN[mode].split(" ")[0] + ("_order" if mode == "CMP_ORDER" else "") + ("_rw" if mode == "RW_BIT" else ""), tag), props=list(props),
                         harness="k_obs.c", function=FN[mode], layer="K", defines=dd, tus=TUS, enforce=[ENF[mode]] if mode in ENF else [],
-                        unwind=unwind or (max(d["NC"], 64) // 1 + 70), bounded=True, bound_note="shape " + tag, shape=tag, timeout=timeout if tier == "quick" else 1200))
+                        unwind=unwind or (max(d["NC"], 64) // 1 + 70), refine=refine, assert_mode=(mode == "FIND_PIVOT"), solver=("--sat-solver cadical" if mode == "FIND_PIVOT" else None), bounded=True, bound_note="shape " + tag, shape=tag, timeout=timeout if tier == "quick" else 1200))
     ncs = [1, 10, 64, 65, 130, 200] if tier == "quick" else [1, 2, 10, 63, 64, 65, 127, 128, 129, 130, 192, 200, 256]
     for nc in ncs:
         for ka, kb in (("owned", "owned"), ("view1", "owned"), ("view0", "view1")):
@@ -33,15 +33,16 @@ def obs_groups(tier, props=("C17", "C09", "C11")):
             a = mat(4, nc, k)
             add("IS_ZERO", a, "4x%d.%s" % (nc, k), unwind=12)
             add("FIRST_ZERO_ROW", a, "4x%d.%s" % (nc, k), unwind=12)
-            a3 = mat(3, nc, k)
-            # start column classes: whole range for narrow matrices, else per word
+            # pivot search: 3 rows up to 65 columns (start column fully symbolic); 2 rows per start-word class for 130 columns; 200 columns thorough only
             if nc <= 70:
-                add("FIND_PIVOT", a3, "3x%d.%s" % (nc, k), unwind=max(nc, 64) + 6, timeout=600)
-            else:
+                add("FIND_PIVOT", mat(3, nc, k), "3x%d.%s" % (nc, k), unwind=6, refine=True, timeout=600)
+            elif nc <= 130 or tier == "thorough":
+                if k == "view0" and tier == "quick":
+                    continue
                 nw = (nc + 63) // 64
                 for w in range(nw):
                     lo, hi = 64 * w, min(nc - 1, 64 * w + 63)
-                    add("FIND_PIVOT", a3, "3x%d.%s.c0w%d" % (nc, k, w), extra={"C0_LO": lo, "C0_HI": hi}, unwind=max(nc, 64) + 6, timeout=600)
+                    add("FIND_PIVOT", mat(2, nc, k), "2x%d.%s.c0w%d" % (nc, k, w), extra={"C0_LO": lo, "C0_HI": hi}, unwind=6, refine=True, timeout=900)
     # different dimensions
     for (anr, anc, bnr, bnc) in ((3, 65, 3, 64), (2, 65, 3, 65), (3, 64, 3, 65)):
         a = mat(anr, anc, "owned")
